@@ -212,7 +212,29 @@ func (w *Wrapper) Copy() Resource {
 
 	// Attributes
 	for _, attr := range w.Attrs() {
-		nw.Set(attr.Name, w.Get(attr.Name))
+		switch v := w.Get(attr.Name).(type) {
+		case []byte:
+			// Slices are copied so that the two structs do not share
+			// storage.
+			if v != nil {
+				v = append([]byte{}, v...)
+			}
+
+			nw.Set(attr.Name, v)
+		case *[]byte:
+			if v != nil {
+				nv := *v
+				if nv != nil {
+					nv = append([]byte{}, nv...)
+				}
+
+				v = &nv
+			}
+
+			nw.Set(attr.Name, v)
+		default:
+			nw.Set(attr.Name, v)
+		}
 	}
 
 	// Relationships
@@ -220,7 +242,12 @@ func (w *Wrapper) Copy() Resource {
 		if rel.ToOne {
 			nw.Set(rel.FromName, w.Get(rel.FromName).(string))
 		} else {
-			nw.Set(rel.FromName, w.Get(rel.FromName).([]string))
+			ids := w.Get(rel.FromName).([]string)
+			if ids != nil {
+				ids = append([]string{}, ids...)
+			}
+
+			nw.Set(rel.FromName, ids)
 		}
 	}
 
